@@ -321,9 +321,12 @@ def run():
     rng = ck.rng
     findings = load_findings("C12")
     classify = make_classifier(findings)
+    hook_lines = {}
     if "error" not in ginfo:
         ck.coverage["site_totals"] = ginfo["total"]
         ck.coverage["library_files"] = len(ginfo["files"])
+        hook_lines = {f: set(v) for f, v in ginfo.get("hook_lines", {}).items()}
+        ck.coverage["hook_lines_excluded"] = sum(len(v) for v in hook_lines.values())
     broken = not pr["ok"]
     boost = 3 if broken else 1          # search mode: the obligations broke, look harder
 
@@ -425,7 +428,14 @@ def run():
         if out == "panic":
             f, msg = site_of(r["panic"])
             replay.update(site=f, msg=msg[:200], loc=r["panic"].get("loc"))
-            ck.disagreement("panic at %s: %s [entry %s, %s]" % (f, msg[:100], c["entry"], c["family"]), replay, lambda _x, c=c: classify(c))
+            # the harness is built with --cfg prqlc_verif: a panic raised by a line of hook code is not behaviour of the product
+            line = (r["panic"].get("loc") or "").rsplit(":", 1)[-1]
+            in_hook = line.isdigit() and int(line) in hook_lines.get(f, ())
+            if in_hook:
+                replay.update(in_hook=True)
+                ck.stat(stream, "panic-in-hook-code")
+            ck.disagreement("panic %sat %s: %s [entry %s, %s]" % ("INSIDE VERIFICATION HOOK CODE (#[cfg(prqlc_verif)], compiled into the harness only) " if in_hook else "", f, msg[:100], c["entry"], c["family"]),
+                            replay, lambda _x, c=c: classify(c))
         elif out == "abort":
             replay.update(abort=a.get("abort"), stderr=a.get("stderr", "")[-200:], metric=nest_metric(c["src"]))
             ck.disagreement("process abort (%s) [entry %s, %s, stack %d MB]" % (a.get("stderr", "")[-80:].strip(), c["entry"], c["family"], c["stack_mb"]), replay, lambda _x, c=c: classify(c))
